@@ -119,7 +119,7 @@ def run(ctx):
                     ["MC_Editor.cfg", "MC_EditorList_a.cfg", "MC_EditorTrack.cfg", "MC_EditorList_b.cfg", "MC_EditorList_c.cfg"]):
         ctx.mc("MC_Editor", cfgname, timeout=1200, workers=8)
     # (2) stimuli: behaviours simulated by TLC from the spec (every modelled action) + seeded random chains / real keys
-    nsim = ctx.pick(12, 120)
+    nsim = ctx.pick(12, 400)
     gen = ctx.tlc("MC_Editor", "Gen_Editor.cfg", workers=2, timeout=600, label="gen",
                   args=["-simulate", "num=%d" % (nsim // 2), "-depth", "30", "-seed", str(ctx.seed)])
     behaviours = gen.json_items("CASE")
@@ -138,7 +138,7 @@ def run(ctx):
             else:
                 steps.append(("post", sessions.fmt_action(st["act"], st["arg"])))
         jobs.append((cfg, items, steps, rng.choice([30, 50, 80]), rng.choice([5, 6, 8, 12, 24])))
-    nrand = ctx.pick(14, 160)
+    nrand = ctx.pick(14, 700)
     for _ in range(nrand):
         cfg = make_cfg(rng)
         k = rng.choice([0, 1, 2, 5, 9, 14, 25, 40])
